@@ -381,10 +381,8 @@ func runC12(t *testing.T, c HandleCase) (*h.Violation, h.Info) {
 					hd, err := st.LookupSecret(context.Background(), n)
 					res[i] <- lr{hd, err}
 				}()
-				if i == 0 {
-					for k := 0; k < 4000 && svc.InFlight(n) == 0; k++ {
-						time.Sleep(25 * time.Microsecond)
-					}
+				if i == 0 && !waitInFlight(svc, n) {
+					fail("harness", "the lookup of %q did not reach the service within 20 s", n)
 				}
 			}
 			// give the second lookup a moment to either finish on its own or (wrongly) attach to the first
@@ -397,7 +395,15 @@ func runC12(t *testing.T, c HandleCase) (*h.Violation, h.Info) {
 			}
 			svc.OpenGate()
 			svc.SetScript(names[0], nil)
-			first := <-res[0]
+			var first lr
+			for got := false; !got; {
+				select {
+				case first = <-res[0]:
+					got = true
+				case <-time.After(5 * time.Millisecond):
+					svc.OpenGate() // in case the request reached the gate only now
+				}
+			}
 			if !gotSecond {
 				second = <-res[1]
 			}
@@ -450,8 +456,8 @@ func runC12(t *testing.T, c HandleCase) (*h.Violation, h.Info) {
 			svc.SetScript("d2", []fake.Beh{{Kind: "gate"}})
 			aDone := make(chan error, 1)
 			go func() { aDone <- st.Refresh(context.Background()) }()
-			for i := 0; i < 4000 && svc.InFlight("d2") == 0; i++ {
-				time.Sleep(25 * time.Microsecond)
+			if !waitInFlight(svc, "d2") {
+				fail("harness", "the poll did not reach the service within 20 s")
 			}
 			maxVer["d1"]++
 			cur["d1"] = maxVer["d1"]
@@ -475,8 +481,16 @@ func runC12(t *testing.T, c HandleCase) (*h.Violation, h.Info) {
 			}
 			svc.OpenGate()
 			svc.SetScript("d2", nil)
-			if err := <-aDone; err == nil {
-				commit(pA)
+			for got := false; !got; {
+				select {
+				case err := <-aDone:
+					got = true
+					if err == nil {
+						commit(pA)
+					}
+				case <-time.After(5 * time.Millisecond):
+					svc.OpenGate()
+				}
 			}
 			if cDone != nil {
 				<-cDone
@@ -603,13 +617,13 @@ func genHandleCase(rt *rapid.T) HandleCase {
 			Kind: rapid.SampledFrom([]string{"set", "set", "set", "poll", "poll", "refresh", "lookup", "expire", "yield", "yield", "parked-poll", "parked-lookup", "handle-during-poll", "joiner-timeout", "double-lookup", "idle-handle", "close"}).Draw(rt, "kind"),
 			Name: rapid.SampledFrom([]string{"d1", "d1", "d2", "u1", "u2", "u3", "c1", "c2"}).Draw(rt, "name"),
 		}
-	}), 3, 30).Draw(rt, "events")
+	}), h.LenBias(rt, 3, 30), 30).Draw(rt, "events")
 	return c
 }
 
 var c12 = &h.Campaign[HandleCase]{
 	Prop: "C12", Sub: "handles",
-	Rule: "rapid, under the race detector: 2-8 reader goroutines spin over every handle (declared ones and ones published by lookups) while a driver executes 3-30 generated events: service change, poll through the store's poller, explicit Refresh, lookup of a new name, expiry sweep (clock jump + poll), Close, and 'parked' polls/lookups during which the service holds the request while all handles are read under a 5 s real-time watchdog; values are self-describing (name#version#padding of version-dependent length); per read: parses as a value the service served for that name, per reader versions never go backwards, a version whose installing poll was acknowledged before the read is the minimum; non-trivial = reads overlapped an install (counted from an 'installing' flag sampled around each read); distinct by (scenario, run) because schedules are sampled",
+	Rule: "rapid, under the race detector: 2-8 reader goroutines spin over every handle (declared ones and ones published by lookups) while a driver executes 3-30 generated events: service change, poll through the store's poller, explicit Refresh, lookup of a new name, expiry sweep (clock jump + poll), Close, two overlapping lookups of different unknown names (the first parked at the service), a handle that is obtained and then left untouched until the very end, and 'parked' polls/lookups during which the service holds the request while all handles are read under a 5 s real-time watchdog; values are self-describing (name#version#padding of version-dependent length); per read: parses as a value the service served for that name, per reader versions never go backwards, a version whose installing poll was acknowledged before the read is the minimum; non-trivial = reads overlapped an install (counted from an 'installing' flag sampled around each read); distinct by (scenario, run) because schedules are sampled",
 	Quick: 1200, Thorough: 150000,
 	Gen:   genHandleCase,
 	Run:   runC12,
@@ -619,3 +633,15 @@ var c12 = &h.Campaign[HandleCase]{
 func init() { c12.Register() }
 
 func TestC12RaceHandles(t *testing.T) { c12.Check(t) }
+
+// waitInFlight waits (real time, generously: the race detector and busy readers slow everything
+// down) until a request for name is being served.
+func waitInFlight(svc *fake.Svc, name string) bool {
+	for end := time.Now().Add(20 * time.Second); time.Now().Before(end); {
+		if svc.InFlight(name) > 0 {
+			return true
+		}
+		time.Sleep(25 * time.Microsecond)
+	}
+	return false
+}
